@@ -74,8 +74,8 @@ CLAIMED = {
         note=NOTE + "the const-fn evaluation of the hasher by rustc (the hook runs the same function at run time); Key::for_path::<T> checked against the hook on a corpus",
         design="7 (C16)"),
     'C17': dict(
-        text="C17 (at this commit): the dyn crate's private varint/zig-zag copies equal the core's (translated tables and expressions, by reflexivity); the agreement statements dyn_ser schema (json_of v) = static bytes and dyn_de schema bytes = json_of v are decided by correspondence and direct oracle: to_stdvec_dyn(schema, serde_json::to_value(v)) == to_allocvec(v) and from_slice_dyn(schema, bytes) == to_value(v) on random shapes and the concrete type corpus within the property's restrictions, both also against the extracted hand model of the two walks (0 disagreements on ~6.5k cases after the fixes). See DESIGN.md for the proof status of the agreement theorem.",
-        note=NOTE + "serde_json (Value, Number, Map ordering, to_value), the host's float conversions (u64/i64->f64, f64->f32, f32->f64: parameters of the model, supplied by OCaml floats in the runner); the control structure of the two walks is hand-modelled",
+        text="C17_encode_agrees: for every schema tree s and every tree v of named data-model items that conforms to s (C14's `conforms`), is unambiguous (integers within i64/u64, finite floats, string-keyed maps with ascending keys) and in scope (no embedded-schema kind, nothing nullable directly inside Option, distinct field and variant names), to_stdvec_dyn's model on json_of v (the hand model of serde_json::to_value) returns exactly the static encoder's bytes enc (erase v) - by nested induction over v, using the translated private varint/zig-zag copies (= the core's, C17_private_copies_agree), key-order lemmas for serde_json's sorted maps, and the single float fact narrow (widen b) = b as an explicit hypothesis. The decoding direction (from_slice_dyn bytes = json_of v) is not yet a theorem; it is decided by the direct oracle and the model comparison. Correspondence: for every tested (type, value) the harness checks to_stdvec_dyn(schema, to_value(v)) == to_allocvec(v), from_slice_dyn(schema, bytes) == to_value(v), and against the extracted model: dyn_ser, dyn_de, json_of == to_value on the captured items, in_scope/unamb/conforms all true (so the theorem's hypotheses hold on the tested inputs); 0 disagreements on ~16k cases per quick run.",
+        note=NOTE + "serde_json (Value, Number, Map ordering, to_value: hand-modelled as json_of and compared on every captured value), the host's float conversions (parameters of the model; OCaml floats in the runner; the theorem assumes only narrow (widen b) = b), the control structure of the two walks (hand-modelled, compared on every run)",
         design="8 (C17)"),
     'C18': dict(
         text="C18_decode_total: for every well-formed schema tree and every byte string from_slice_dyn's model never panics (no todo!/unreachable arm in the translated table, no over-wide shift in the private varint reader, every take_one/take_n/get checked) and every remainder it passes on is a suffix of the input; C18_encode_total: to_stdvec_dyn's model never panics for every schema and every JSON value; C18_private_reader: the private varint reader = the reference reader of the wire format. Partial: the allocation bound and the re-encode clause are FALSE on the unchanged tree for three classes (C18_allocation_bound_refuted, C18_reencode_refuted_option, C18_reencode_refuted_duplicate_fields = known findings F9, F7, F8) and are otherwise decided by the harness (counting allocator; decode + re-encode of everything the encoder accepts) and the model comparison on ~18k cases per run.",
